@@ -50,7 +50,7 @@ def reload_search(tier, variant='three'):
         # the request timeout itself is reloaded (30 s -> none -> 60 s ...) while a client waits; judged: bookkeeping, clean exit, no memory error
         services = G['login+drone']
         rules = rules_for(services)
-        base = alpha.make([1], data=('H',), ends=('D', 'T'), passwords=('x',), replies=('OKA', 'NO'), old_replies=(), malformed=(), ghost_replies=(), pbudget=1, dead_probes=False)
+        base = alpha.make([1], data=('H',), ends=('D', 'T'), passwords=('x',), replies=('OKA', 'NO', 'MORE'), old_replies=(), malformed=(), ghost_replies=(), pbudget=2, dead_probes=False)
         names = ('t0.conf', 't30.conf', 't60.conf')
         alph = lambda st, w: base(st, w) + [('RL', f) for f in names]
         files = {'t%d.conf' % t: (lambda md_, t=t: e1.conf_text(md_, services=services, timeout=t, rules=rules)) for t in (0, 30, 60)}
